@@ -9,7 +9,7 @@ req = read_request()
 from redun import Scheduler, task, apply_tags, File
 from redun.config import Config
 from redun.backends.base import TagEntity
-from redun.backends.db import (Execution, Job, CallNode, CallEdge, Argument, ArgumentResult, Value, File as FileRow, Task as TaskRow, Subvalue, Tag, TagEdit, RedunBackendDb)
+from redun.backends.db import (Execution, Job, CallNode, CallEdge, Argument, ArgumentResult, Value, File as FileRow, Task as TaskRow, Subvalue, Tag, TagEdit, CallSubtreeTask, RedunBackendDb)
 
 logging.getLogger("redun").setLevel(logging.CRITICAL)
 NS = "c23"
@@ -101,6 +101,7 @@ def owned(sess, roots):
                 todo.append(("Value", a.value_hash))
                 todo += [("CallNode", r.result_call_hash) for r in sess.query(ArgumentResult).filter(ArgumentResult.arg_hash == a.arg_hash)]
             todo += [("CallNode", e.child_id) for e in sess.query(CallEdge).filter(CallEdge.parent_id == i)]
+            todo += [("Value", t.task_hash) for t in sess.query(CallSubtreeTask).filter(CallSubtreeTask.call_hash == i)]
         elif kind == "Value":
             if not sess.query(Value).filter(Value.value_hash == i).count():
                 seen.discard((kind, i))
@@ -138,6 +139,9 @@ def snapshot(sess, own):
             # child edges in call order (positions, not the raw call_order numbers: the record format carries the ordered child list)
             for rank, e in enumerate(sorted(sess.query(CallEdge).filter(CallEdge.parent_id == i), key=lambda e: e.call_order)):
                 out.add(("CallEdge",) + cols(e, ["parent_id", "child_id"]) + (str(rank),))
+            # the task set shallow cache validity is decided from
+            for t in sess.query(CallSubtreeTask).filter(CallSubtreeTask.call_hash == i):
+                out.add(("CallSubtreeTask",) + cols(t, ["call_hash", "task_hash"]))
         elif kind == "Value":
             for v in sess.query(Value).filter(Value.value_hash == i):
                 out.add(("Value",) + cols(v, ["value_hash", "type", "format"]) + (bytes(v.value or b"").hex()[:64],))
@@ -157,7 +161,7 @@ def snapshot(sess, own):
 
 def all_rows(sess):
     sess.expire_all()
-    return sum(sess.query(m).count() for m in (Execution, Job, CallNode, Argument, ArgumentResult, CallEdge, Value, FileRow, TaskRow, Subvalue, Tag, TagEdit))
+    return sum(sess.query(m).count() for m in (Execution, Job, CallNode, Argument, ArgumentResult, CallEdge, CallSubtreeTask, Value, FileRow, TaskRow, Subvalue, Tag, TagEdit))
 
 
 def executions(sess):
@@ -241,10 +245,47 @@ try:
             w = compare(src, dest2, ex, "history 'tags', one-shot transfer of a source whose tags were updated and deleted")
             if w is None and dict(dest2.get_tags([ex[0], value_hash])) != dict(src.get_tags([ex[0], value_hash])):
                 w = dict(scenario="history 'tags', one-shot transfer", observed="current tags differ", source=repr(dict(src.get_tags([ex[0], value_hash]))), destination=repr(dict(dest2.get_tags([ex[0], value_hash]))))
+    # ---- a call node recorded through the backend API with an explicit subtree task set that does not list its own task
+    if w is None:
+        n += 1
+        s = new_scheduler()
+        src = s.backend
+        src.record_value(leaf)
+        src.record_value(pair)
+        result_hash = src.record_value(5)
+        child = src.record_call_node(task_name=leaf.fullname, task_hash=leaf.hash, args_hash="c23-args-1", expr_args=((), {}), eval_args=((), {}), result_hash=result_hash,
+                                     child_call_hashes=[], subtree_tasks=set())
+        parent = src.record_call_node(task_name=pair.fullname, task_hash=pair.hash, args_hash="c23-args-2", expr_args=((), {}), eval_args=((), {}), result_hash=result_hash,
+                                      child_call_hashes=[child], subtree_tasks={leaf})
+        dest = new_scheduler().backend
+        transfer(src, dest, [parent])
+        w = compare(src, dest, [parent], "two call nodes recorded through RedunBackendDb.record_call_node with explicit subtree task sets (none lists the node's own task), root = the parent call node")
+    # ---- cache safety: after a transfer the destination must not serve what the source's caching rules refuse
+    if w is None:
+        n += 1
+
+        def define_leaf(delta, version):
+            @task(name="leaf", namespace=NS, version=version)
+            def leaf(x):
+                return x + delta
+            return leaf
+        leaf = define_leaf(1, "1")
+        s = new_scheduler()
+        with silence():
+            s.run(shallow_main(2))
+        dest_s = new_scheduler()
+        transfer(s.backend, dest_s.backend, executions(s.backend.session))
+        leaf = define_leaf(100, "2")            # the code of a task below the shallowly checked task changes
+        with silence():
+            here, there = s.run(shallow_main(2)), dest_s.run(shallow_main(2))
+        leaf = define_leaf(1, "1")
+        if here != there:
+            w = dict(scenario="shallow_main(2) recorded, transferred, then the task 'leaf' beneath it is redefined", observed="the destination's cache serves a result the source refuses",
+                     source_returns=repr(here), destination_returns=repr(there))
 except Exception as e:
     import traceback
     w = dict(observed=f"raised {type(e).__name__}: {e}", trace=traceback.format_exc()[-800:])
 
 finish(w is not None, witness=w, evaluations=n, samples=samples,
        bound="4 histories (two fan-out executions; an execution served from the cache in one step; file results; tags then an update and two deletions) x root sets {each execution, all} x "
-             "{fresh destination, repeated transfer, incremental transfer after tag edits, one-shot transfer of the edited source}, records sent through JSON lines")
+             "{fresh destination, repeated transfer, incremental transfer after tag edits, one-shot transfer of the edited source}, records sent through JSON lines; one call graph recorded through the backend API with explicit subtree task sets; one cache-safety scenario (a task beneath a shallowly checked task is redefined after the transfer)")
